@@ -8,7 +8,7 @@ TMaskSound checked by TLC); exact squared areas, squared edge lengths, un-normal
 boundary flags and unique edges over Q (GeomSound); invariances evaluated in the real code."""
 from ._cases import run_families
 
-FAM = [("mesh", "ShapeCases", "MC_ShapeCases_c17.cfg", "MC_ShapeCases_c17.cfg", "shapes", False)]
+FAM = [("mesh", "ShapeCases", "MC_ShapeCases_c17.cfg", "MC_ShapeCases_c17t.cfg", "shapes", True)]
 
 
 def run(chk, tier, seed, replay):
